@@ -147,7 +147,7 @@ pub fn plan_pipeline_case(check: &str, tier: Tier, seed: u64, idx: u64) -> Plan 
     let gen_seed = derive(seed, 0x6e6e_0000 ^ idx);
     let (profile, mode): (Profile, SchedMode) = match check {
         "C01" => ([Profile::Mixed, Profile::Mixed, Profile::Conflict, Profile::Lifecycle, Profile::Code, Profile::Beneficiary][rng.below(6) as usize], SchedMode::Any),
-        "C02" => ([Profile::Conflict, Profile::Conflict, Profile::Conflict, Profile::Mixed, Profile::Mixed, Profile::Beneficiary, Profile::Beneficiary, Profile::Code, Profile::Invalid][rng.below(9) as usize], SchedMode::Any),
+        "C02" => ([Profile::Conflict, Profile::Conflict, Profile::Conflict, Profile::Mixed, Profile::Mixed, Profile::Beneficiary, Profile::Beneficiary, Profile::Code, Profile::Invalid, Profile::Lifecycle][rng.below(10) as usize], SchedMode::Any),
         "C03" => ([Profile::Invalid, Profile::Invalid, Profile::Invalid, Profile::Code][rng.below(4) as usize], SchedMode::Any),
         "C04" => ([Profile::Mixed, Profile::Conflict, Profile::Invalid, Profile::Precompile][rng.below(4) as usize], SchedMode::Any),
         "C05" => (
